@@ -60,7 +60,9 @@ func (o *Options) ServerOptions() []string {
 	if o.PreserveGid() {
 		argstr += "g"
 	}
-	if o.PreserveDevices() {
+	// -D means --devices --specials; when only one of the two is set, it
+	// is sent as a long option below.
+	if o.PreserveDevices() && o.PreserveSpecials() {
 		argstr += "D"
 	}
 	if o.PreserveMTimes() {
@@ -100,6 +102,13 @@ func (o *Options) ServerOptions() []string {
 
 	if argstr != "-" {
 		sargv = append(sargv, argstr)
+	}
+
+	if o.PreserveDevices() && !o.PreserveSpecials() {
+		sargv = append(sargv, "--devices")
+	}
+	if o.PreserveSpecials() && !o.PreserveDevices() {
+		sargv = append(sargv, "--specials")
 	}
 
 	// if (block_size) {
